@@ -14,7 +14,7 @@ ASSUME = [
     'with the correct network password only GET routes and POST /config are exercised (/quit, /join, /part, /kill and /raft/ are never called with valid credentials); every refused private request uses a fresh api.HTTP object so that the wrong-password back-off stays at 1 ms; no time is measured',
     'id spellings other than the canonical 0x.. form that denote the same number may be accepted or refused with the correct secret (both are fine), but are never accepted with anything else',
 ]
-RULE = ('all cells of: {history} x {9 session states} x {10 denoting + 6 garbage id spellings} x {6 route shapes + 23 off-route method/path shapes} x {credential variants in X-Session-Auth}, '
+RULE = ('all cells of: {history} x {13 session states} x {10 denoting + 6 garbage id spellings} x {6 route shapes + 23 off-route method/path shapes} x {credential variants in X-Session-Auth}, '
         'followed by the accepted life cycle GET/POST/GET/DELETE with the correct secret and the once-correct secret afterwards; '
         '{private paths} x {GET, POST, DELETE, PUT} x {17 wrong basic-auth variants, correct}; {private paths below /robustirc/v1/} x 4 methods x 3 credentials through the public dispatcher. '
         'distinct_nontrivial = number of distinct (matrix part, route, session state/history, id spelling, credential, observed status, effect) classes observed by the run')
